@@ -82,6 +82,20 @@ variable {α : Type} [Zero α] [One α]
 def bit (b : Bool) : α := if b then 1 else 0
 /-- row `k` of the Hilbert space as a scalar vector -/
 def spaceRow (n k : Nat) : Fin n → α := fun j => bit (spaceBit n k j)
+
+/-- a generated 0/1 row (as `generate_hilbert_space` / `subspace_vector` return it) read as the scalar vector
+`space[k, :]` that `psi`, `rho`, `probability`, … receive (`torch.double` entries 0.0 / 1.0). -/
+def rowVec (n : Nat) (r : List Bool) : Fin n → α := fun j => bit (r.getD j.val false)
+
+/-- `f(space)` for a function that works row by row (`psi(space)`, `amplitude(space)`, `probability(space)`):
+position `k` of the produced array is `f(space[k, :])`. -/
+def overSpace {β : Type} (n : Nat) (f : (Fin n → α) → β) (rows : List (List Bool)) : List β :=
+  rows.map (fun r => f (rowVec n r))
+
+/-- `g(space, space)` with `expand=True` (`rho`, `pi`, `gamma`): entry `[i][j]` is `g(space[i, :], space[j, :])` —
+row index from the first argument, column index from the second. -/
+def overSpace2 {β : Type} (n : Nat) (g : (Fin n → α) → (Fin n → α) → β) (rows : List (List Bool)) : List (List β) :=
+  rows.map (fun r => rows.map (fun r' => g (rowVec n r) (rowVec n r')))
 end
 
 end QV
